@@ -265,6 +265,13 @@ func (p *Proxy) handleLoop(conn net.Conn) {
 			log.Debugf("martian: closing connection: %v", conn.RemoteAddr())
 			return
 		}
+
+		if s.Hijacked() {
+			// The hijacker has returned: the proxy takes no further action on the
+			// connection and closes it.
+			log.Debugf("martian: closing hijacked connection: %v", conn.RemoteAddr())
+			return
+		}
 	}
 }
 
@@ -457,9 +464,15 @@ func (p *Proxy) handle(ctx *Context, conn net.Conn, brw *bufio.ReadWriter) error
 	if err != nil {
 		return err
 	}
-	defer req.Body.Close()
-
 	session := ctx.Session()
+	defer func() {
+		// Closing the body reads what is left of it from the connection, which
+		// belongs to the hijacker once the session has been hijacked.
+		if !session.Hijacked() {
+			req.Body.Close()
+		}
+	}()
+
 	ctx, err = withSession(session)
 	if err != nil {
 		log.Errorf("martian: failed to build new context: %v", err)
